@@ -280,6 +280,15 @@ U_C10_Class(zz) == {DeclO([DefaultOpts EXCEPT !.align = al], <<U1("a"), IntF("b"
                       {0, 1}, 7) : al \in {2, 3, 4}}
                \cup {DeclP([C0 |-> Class(DefaultOpts, <<U1("h"), RefF("s", "C1")>>),
                             C1 |-> Class([DefaultOpts EXCEPT !.align = al], <<U1("a"), U1("b")>>)], {0, 1}, 6, {0}) : al \in {2, 3}}
+               \* a class-wide alignment next to fields with a modifier of their own whose argument is ZERO (the way to keep one field
+               \* tightly packed / at the very start): an explicit 0 is a position, not "no position"
+               \cup {DeclP([C0 |-> Class([DefaultOpts EXCEPT !.align = al], <<MvField(U1("a"), [kind |-> "at", arg |-> SzConst(al), ref |-> "innermost-pkt"]),
+                                                                            MvField(U1("b"), [kind |-> "at", arg |-> SzConst(0), ref |-> r]),
+                                                                            MvField(U1("c"), [kind |-> "shift", arg |-> SzConst(0), ref |-> "current-offset"])>>)],
+                           {0, 1, 46}, 5, {0}) : al \in {2, 4}, r \in {"innermost-pkt", "begins"}}
+               \cup {DeclP([C0 |-> Class(DefaultOpts, <<U1("h"), U1("g"), U1("f"), RefF("s", "C1")>>),
+                            C1 |-> Class([DefaultOpts EXCEPT !.align = 2], <<U1("a"), MvField(U1("b"), [kind |-> "shift", arg |-> SzConst(0), ref |-> "current-offset"]), U1("c")>>)],
+                           {0, 1}, 8, {0})}
 U_C10_Elem(zz) == {DeclP([C0 |-> Class(DefaultOpts, <<U1("n"), RepCountF("r", e, SzField("n"), NoCond, al), MvField(EmF("tail"), mv)>>),
                       C1 |-> Class(DefaultOpts, <<U1("x")>>)], {0, 1, 2}, 6, {0}) :
                  e \in {U1("e"), RefF("e", "C1"), IntF("e", 3, FALSE, "default")}, al \in {2, 3, 4, 6},
